@@ -212,3 +212,41 @@ func EnrichWorkload(r *Rand, w *Workload, scratch string) {
 		w.Name += " +" + strings.Join(notes, "+")
 	}
 }
+
+// AddHandWrittenShapes adds a common passes file with add_object steps whose
+// types are written by hand and use positions no parser produces: an enum as a
+// map's index type, below a struct field, an array or a map value.
+func AddHandWrittenShapes(r *Rand, w *Workload) {
+	if len(w.Inputs) == 0 {
+		return
+	}
+	pkg := w.Inputs[0].Package
+	if pkg == "" {
+		return
+	}
+	str := func() *TypeSpec { return &TypeSpec{K: Pick(r, []string{"string", "int64", "bool"})} }
+	enum := func() *TypeSpec { return &TypeSpec{K: "enum", Values: []string{"low", "high"}} }
+	enumMap := func() *TypeSpec { return &TypeSpec{K: "map", Index: enum(), Elem: str()} }
+	var specs []PassSpec
+	n := 1 + r.Intn(2)
+	for i := 0; i < n; i++ {
+		var t *TypeSpec
+		switch r.Intn(5) {
+		case 0:
+			t = enumMap()
+		case 1:
+			t = &TypeSpec{K: "array", Elem: enumMap()}
+		case 2:
+			t = &TypeSpec{K: "map", Elem: enumMap()}
+		case 3:
+			t = &TypeSpec{K: "struct", Fields: []FieldSpec{{Name: "colors", T: &TypeSpec{K: "array", Elem: enumMap()}, Required: r.Bool()}, {Name: "labels", T: &TypeSpec{K: "map", Elem: enum()}, Required: r.Bool()}}}
+		default:
+			t = &TypeSpec{K: "struct", Fields: []FieldSpec{{Name: "bySeverity", T: enumMap(), Required: r.Bool()}, {Name: "plain", T: str()}}}
+		}
+		specs = append(specs, PassSpec{Kind: "add_object", Obj: fmt.Sprintf("%s.HandWritten%d", pkg, i), Type: t})
+	}
+	path := "cfg/handwritten_passes.yaml"
+	w.Files[path] = PassesFileYAML(specs)
+	w.CommonPass = append(w.CommonPass, path)
+	w.Name += " +hand-written-shapes"
+}
